@@ -1,6 +1,16 @@
-"""Positive fixture for the F-NAME lint (never imported by anything): one function per idiom, expected verdict in its name."""
+"""Positive fixture for the F-NAME lint (never imported by anything): one function per idiom, expected verdict in its name.
+
+`unsafe_*` must yield at least one unsafe site, `safe_*` / `_safe_*` only safe (or not armed) ones; helpers named `_unsafe_*` /
+`_helper_*` are unconstrained. The functions are analysed as a tiny repository of their own (rules/names.py: fixture_selfcheck).
+"""
+
+import re
 
 Node = str
+SEPARATOR = "."
+
+
+# ----------------------------------------------------------------------------- raw prefix / substring relations
 
 
 def unsafe_raw_prefix(module: Node, other: Node) -> bool:
@@ -21,6 +31,75 @@ def unsafe_replace(module: Node, other: Node) -> str:
     return module.replace(other, "alias")
 
 
+def unsafe_prefix_from_sorted_collection(module: Node, listed: list[Node]) -> list[str]:
+    found = []
+    candidates = sorted(listed)
+    idx = len(candidates) - 1
+    while idx >= 0:
+        candidate = candidates[idx]
+        if module.startswith(candidate):
+            found.append(candidate)
+        idx -= 1
+    return found
+
+
+def unsafe_prefix_plus_depth(module: Node, other: Node) -> bool:
+    depth = module.count(".")
+    return module.startswith(other) and other.count(".") < depth
+
+
+def unsafe_closure_any(modules: list[Node]) -> list[str]:
+    names = {m for m in modules}
+
+    def has_parent(identifier: str) -> bool:
+        return any(identifier != name and identifier.startswith(name) for name in names)
+
+    return [m for m in modules if not has_parent(m)]
+
+
+class _Holder:
+    def _helper_first_searched(self, module: Node, searched: dict[Node, list[str]]) -> str | None:
+        for searched_module in searched:
+            if self.unsafe_is_part_of_method(module, searched_module):
+                return searched_module
+        return None
+
+    @classmethod
+    def unsafe_is_part_of_method(cls, module_name: str, parent_module_name: str) -> bool:
+        return module_name.startswith(parent_module_name)
+
+
+def _helper_first_searched(module: Node, searched: dict[Node, list[str]]) -> str | None:
+    for searched_module in searched:
+        if unsafe_is_part_of_function(module, searched_module):
+            return searched_module
+    return None
+
+
+def unsafe_is_part_of_function(module_name: str, parent_module_name: str) -> bool:
+    return module_name.startswith(parent_module_name)
+
+
+def unsafe_joined_prefix(module: Node, other: Node, level: int) -> bool:
+    return module.startswith(".".join(other.split(".")[: level + 1]))
+
+
+def unsafe_suffix(module: Node, other: Node) -> bool:
+    return module.endswith(other)
+
+
+def unsafe_find_is_zero(module: Node, other: Node) -> bool:
+    return module.find(other) == 0
+
+
+def unsafe_regex_from_name(module: Node, other: Node) -> bool:
+    return re.match(rf"^{other}", module) is not None
+
+
+def unsafe_escaped_regex_without_boundary(module: Node, other: Node) -> bool:
+    return re.match(re.escape(other), module) is not None
+
+
 def safe_dotted_prefix(module: Node, other: Node) -> bool:
     return module == other or module.startswith(other + ".")
 
@@ -28,6 +107,38 @@ def safe_dotted_prefix(module: Node, other: Node) -> bool:
 def safe_fstring_prefix(module: Node, other: Node) -> bool:
     prefix = f"{other}."
     return module.startswith(prefix)
+
+
+def safe_constant_separator(module: Node, other: Node) -> bool:
+    return module == other or module.startswith(other + SEPARATOR)
+
+
+def safe_tuple_of_prefixes(module: Node, first: Node, second: Node) -> bool:
+    return module.startswith((first + ".", f"{second}."))
+
+
+def _caller_builds_prefix(module: Node, other: Node) -> bool:
+    return module == other or safe_prefix_built_by_caller(module, other + ".")
+
+
+def safe_prefix_built_by_caller(module: str, prefix: str) -> bool:
+    return module.startswith(prefix)
+
+
+def _caller_prefixes_in_tuples(modules: list[Node], aliases: dict[Node, str]) -> dict[str, str]:
+    replacements = [(name, f"{name}.", aliases[name]) for name in sorted(aliases, key=len, reverse=True)]
+    labels = {}
+    for module in modules:
+        labels[module] = _safe_apply(module, replacements)
+    return labels
+
+
+def _safe_apply(module_name: str, replacements: list[tuple[str, str, str]]) -> str:
+    for aliased, prefix, alias in replacements:
+        if module_name != aliased and not module_name.startswith(prefix):
+            continue
+        return alias + module_name[len(aliased):]
+    return module_name
 
 
 def safe_slice_after_boundary_test(module: Node, other: Node) -> str:
@@ -48,6 +159,23 @@ def _safe_is_part_of(module: Node, other: Node) -> bool:
     return module.startswith(other + ".")
 
 
+def safe_slice_in_helper(module: Node, other: Node) -> str:
+    if module == other or module.startswith(other + "."):
+        return "x" + _safe_rest(module, other)
+    return module
+
+
+def _safe_rest(name: Node, ancestor: Node) -> str:
+    return name[len(ancestor):]
+
+
+def safe_slice_by_stored_length(module: Node, other: Node) -> str:
+    if not (module == other or module.startswith(other + ".")):
+        return module
+    skip = len(other)
+    return "x" + module[skip:]
+
+
 def safe_remainder_predicate(module: Node, other: Node) -> bool:
     if not module.startswith(other):
         return False
@@ -55,6 +183,808 @@ def safe_remainder_predicate(module: Node, other: Node) -> bool:
     return rest == "" or rest[0] == "."
 
 
+def safe_next_character(module: Node, other: Node) -> bool:
+    return module == other or (module.startswith(other) and module[len(other)] == ".")
+
+
 def safe_components(module: Node, other: Node) -> bool:
     parts = other.split(".")
     return module.split(".")[: len(parts)] == parts
+
+
+def safe_dotted_suffix(module: Node, other: Node) -> bool:
+    return module == other or module.endswith(f".{other}")
+
+
+def safe_escaped_regex_with_boundary(module: Node, other: Node) -> bool:
+    return re.match(re.escape(other) + r"(\.|$)", module) is not None
+
+
+def safe_lexical_tests(module: Node) -> bool:
+    return module.startswith("_") or module.endswith("__init__") or "-" in module
+
+
+def safe_first_component_is_private(module: Node) -> bool:
+    return module.split(".")[-1].startswith("_")
+
+
+# ----------------------------------------------------------------------------- cutting names at an index
+
+
+def unsafe_rfind_walk(module: Node, layers: dict[str, str]) -> set[str]:
+    found = set()
+    parent = module[: module.rfind(".")]
+    while parent:
+        if parent in layers:
+            found.add(layers[parent])
+        parent = parent[: parent.rfind(".")]
+    return found
+
+
+def unsafe_find_cut(module: Node) -> str:
+    return module[: module.find(".")]
+
+
+def unsafe_every_prefix(module: Node, layers: dict[str, str]) -> list[str]:
+    return [layers[module[:i]] for i in range(len(module)) if module[:i] in layers]
+
+
+def unsafe_enumerate_without_test(module: Node) -> list[str]:
+    return [module[:idx] for idx, _char in enumerate(module)]
+
+
+def unsafe_cut_at_other_name(module: Node, other: Node) -> str:
+    return module[module.find(other):]
+
+
+def safe_rfind_guarded_by_membership(module: Node) -> str:
+    if "." in module:
+        return module[: module.rfind(".")]
+    return ""
+
+
+def safe_rfind_guarded_by_index(module: Node) -> str:
+    idx = module.rfind(".")
+    if idx == -1:
+        return ""
+    return module[:idx]
+
+
+def safe_rfind_walk(module: Node) -> list[str]:
+    parents = []
+    parent = module
+    while "." in parent:
+        parent = parent[: parent.rfind(".")]
+        parents.append(parent)
+    return parents
+
+
+def safe_last_component(module: Node) -> str:
+    return module[module.rfind(".") + 1 :]
+
+
+def safe_rindex_cut(module: Node) -> str:
+    return module[: module.rindex(".")]
+
+
+def safe_enumerate_cut(module: Node) -> list[str]:
+    return [module[:idx] for idx, character in enumerate(module) if character == "."]
+
+
+def safe_enumerate_loop_cut(module: Node) -> list[str]:
+    out = []
+    for position, char in enumerate(module):
+        if char != ".":
+            continue
+        out.append(module[:position])
+    return out
+
+
+def safe_rpartition_walk(module: Node) -> list[str]:
+    parents = []
+    head = module.rpartition(".")[0]
+    while head:
+        parents.append(head)
+        head = head.rpartition(".")[0]
+    return parents
+
+
+def safe_rsplit_parent(module: Node) -> str:
+    return module.rsplit(".", 1)[0]
+
+
+# ----------------------------------------------------------------------------- separators
+
+
+def unsafe_split_at_underscore(module: Node) -> list[str]:
+    return module.split("_")
+
+
+def unsafe_partition_at_dash(module: Node) -> str:
+    return module.partition("-")[0]
+
+
+def unsafe_join_without_separator(module: Node, level: int) -> str:
+    return "".join(module.split(".")[:level])
+
+
+def unsafe_join_with_dash(module: Node, level: int) -> str:
+    parts = module.split(".")
+    return "-".join(parts[: level + 1])
+
+
+def safe_name_to_path_by_join(module: Node) -> str:
+    return "/".join(module.split(".")) + ".py"
+
+
+def unsafe_characters(module: Node) -> list[str]:
+    parents = []
+    current: list[str] = []
+    for char in module:
+        if char in "._":
+            parents.append("".join(current))
+        current.append(char)
+    return parents
+
+
+def safe_characters(module: Node) -> list[str]:
+    parents = []
+    current: list[str] = []
+    for char in module:
+        if char == ".":
+            parents.append("".join(current))
+        current.append(char)
+    return parents
+
+
+def safe_flatten(module: Node, level: int) -> str:
+    parts = module.split(".")
+    return ".".join(parts[: level + 1])
+
+
+def safe_flatten_with_decorated_components(module: Node, level: int) -> str:
+    head, *rest = module.split(".")
+    return head + "".join(f".{component}" for component in rest[:level])
+
+
+def safe_ancestors_by_components(module: Node) -> list[str]:
+    components = module.split(".")
+    return [".".join(components[:level]) for level in range(1, len(components))]
+
+
+def safe_message_from_components(module: Node) -> str:
+    return ", ".join(repr(component) for component in module.split("."))
+
+
+# ----------------------------------------------------------------------------- extent of a component-wise comparison
+
+
+def unsafe_zip_truncates(module: Node, prefix: Node) -> bool:
+    prefix_components = prefix.rstrip(".").split(".")
+    return all(component == expected for component, expected in zip(module.split("."), prefix_components))
+
+
+def safe_zip_with_length_test(module: Node, prefix: Node) -> bool:
+    components = module.split(".")
+    expected_components = prefix.split(".")
+    return len(components) >= len(expected_components) and all(a == b for a, b in zip(components, expected_components))
+
+
+# ----------------------------------------------------------------------------- further spellings of the idioms above
+
+
+def safe_prefix_by_format(module: Node, other: Node) -> bool:
+    return module == other or module.startswith("{}.".format(other)) or module.startswith("%s." % other)
+
+
+def safe_prefix_by_join_of_literal(module: Node, other: Node) -> bool:
+    return module == other or module.startswith(".".join([other, ""]))
+
+
+def safe_prefix_normalised_by_expression(module: Node, prefix: str) -> bool:
+    dotted = prefix if prefix.endswith(".") else prefix + "."
+    return module.startswith(dotted)
+
+
+def safe_prefix_normalised_by_statement(module: Node, prefix: str) -> bool:
+    if not prefix.endswith("."):
+        prefix += "."
+    return module.startswith(prefix)
+
+
+def safe_prefixes_from_comprehension(module: Node, listed: list[Node]) -> bool:
+    prefixes = tuple(f"{name}." for name in listed)
+    return module in listed or any(module.startswith(prefix) for prefix in prefixes)
+
+
+def unsafe_prefix_tuple_from_names(module: Node, listed: list[Node]) -> bool:
+    return module.startswith(tuple(listed))
+
+
+def unsafe_bound_method(module: Node, listed: list[Node]) -> bool:
+    return any(map(module.startswith, listed))
+
+
+def safe_bound_method(module: Node, listed: list[Node]) -> bool:
+    return module in listed or any(map(module.startswith, [name + "." for name in listed]))
+
+
+def safe_slice_equals_dotted(module: Node, other: Node) -> bool:
+    return module == other or module[: len(other) + 1] == other + "."
+
+
+def safe_slice_equals_dotted_prefix(module: Node, other: Node) -> bool:
+    prefix = f"{other}."
+    return module == other or module[: len(prefix)] == prefix
+
+
+def unsafe_slice_equals_raw(module: Node, other: Node) -> bool:
+    return module[: len(other)] == other
+
+
+def unsafe_suffix_by_slice(module: Node, other: Node) -> bool:
+    return module[-len(other) :] == other
+
+
+def safe_removeprefix_after_test(module: Node, other: Node) -> str:
+    if module == other or module.startswith(other + "."):
+        return "x" + module.removeprefix(other)
+    return module
+
+
+def unsafe_removeprefix_raw(module: Node, other: Node) -> str:
+    return module.removeprefix(other)
+
+
+def unsafe_commonprefix(module: Node, other: Node) -> bool:
+    import os.path
+
+    return os.path.commonprefix([module, other]) == other
+
+
+def unsafe_glob_from_name(module: Node, other: Node) -> bool:
+    import fnmatch
+
+    return fnmatch.fnmatch(module, other + "*")
+
+
+def safe_glob_with_boundary(module: Node, other: Node) -> bool:
+    import fnmatch
+
+    return module == other or fnmatch.fnmatch(module, other + ".*")
+
+
+def unsafe_zip_characters(module: Node, other: Node) -> bool:
+    return all(a == b for a, b in zip(module, other))
+
+
+def unsafe_every_prefix_by_accumulation(module: Node) -> list[str]:
+    prefixes = []
+    current = ""
+    for char in module:
+        prefixes.append(current)
+        current += char
+    return prefixes
+
+
+def unsafe_underscore_becomes_separator(module: Node) -> list[str]:
+    return module.replace("_", ".").split(".")
+
+
+def safe_name_to_path(module: Node) -> str:
+    return module.replace(".", "/")
+
+
+def safe_decorated_containment(module: Node, other: Node) -> bool:
+    return f".{other}." in f".{module}."
+
+
+def safe_rfind_conditional_expression(module: Node) -> str:
+    idx = module.rfind(".")
+    return module[:idx] if idx >= 0 else ""
+
+
+def safe_walrus_walk(module: Node) -> list[str]:
+    parents = []
+    name = module
+    while (idx := name.rfind(".")) != -1:
+        name = name[:idx]
+        parents.append(name)
+    return parents
+
+
+def safe_positions_then_cut(module: Node) -> list[str]:
+    dots = [position for position, char in enumerate(module) if char == "."]
+    return [module[:dot] for dot in dots]
+
+
+def unsafe_positions_without_test(module: Node) -> list[str]:
+    positions = [position for position, char in enumerate(module)]
+    return [module[:p] for p in positions]
+
+
+def safe_regex_positions(module: Node) -> list[str]:
+    return [module[: match.start()] for match in re.finditer(r"\.", module)]
+
+
+def safe_index_in_try(module: Node) -> str:
+    try:
+        return module[: module.index(".")]
+    except ValueError:
+        return module
+
+
+def safe_remainder_after_removeprefix(module: Node, other: Node) -> bool:
+    rest = module.removeprefix(other)
+    return rest != module and rest.startswith(".") or module == other
+
+
+def safe_remainder_examined_inline(module: Node, other: Node) -> bool:
+    return module.startswith(other) and module[len(other):][:1] in ("", ".")
+
+
+def safe_prefixes_in_dict(module: Node, aliases: dict[Node, str]) -> str:
+    prefixes = {name: name + "." for name in aliases}
+    for name in sorted(aliases, key=len, reverse=True):
+        if module == name or module.startswith(prefixes[name]):
+            return aliases[name] + module[len(name):]
+    return module
+
+
+class _Alias:
+    def __init__(self, module: Node, alias: str) -> None:
+        self.module = module
+        self.alias = alias
+        self._dotted = module + "."
+
+    @property
+    def prefix(self) -> str:
+        return f"{self.module}."
+
+    def safe_covers(self, name: Node) -> bool:
+        return name == self.module or name.startswith(self.prefix) or name.startswith(self._dotted)
+
+    def unsafe_covers(self, name: Node) -> bool:
+        return name.startswith(self.module)
+
+
+def safe_find_loop(module: Node) -> list[str]:
+    parents = []
+    position = module.find(".")
+    while position != -1:
+        parents.append(module[:position])
+        position = module.find(".", position + 1)
+    return parents
+
+
+def unsafe_strip_by_name(module: Node, other: Node) -> str:
+    return module.lstrip(other)
+
+
+def safe_fullmatch_escaped(module: Node, other: Node) -> bool:
+    return re.fullmatch(re.escape(other), module) is not None
+
+
+def unsafe_prefix_with_separator_cut_off(module: Node, other: Node) -> bool:
+    dotted = other + "."
+    return module.startswith(dotted[:-1])
+
+
+class _Naming:
+    SEPARATOR = "."
+
+    def safe_class_constant_separator(self, module: Node, other: Node) -> bool:
+        return module == other or module.startswith(other + self.SEPARATOR) or module.startswith(other + _Naming.SEPARATOR)
+
+
+INIT_FILE = "__init__"
+
+
+def safe_lexical_test_with_module_constant(module: Node) -> bool:
+    return module.endswith(INIT_FILE) or module.startswith(INIT_FILE + "_")
+
+
+def unsafe_case_folded_comparison(module: Node, other: Node) -> bool:
+    return module.lower() == other.lower()
+
+
+def unsafe_unbound_method(module: Node, other: Node) -> bool:
+    return str.startswith(module, other)
+
+
+def safe_sorted_case_insensitively(modules: list[Node]) -> list[str]:
+    return sorted(modules, key=lambda m: m.lower()) + [m for m in modules if str.startswith(m, "_")]
+
+
+def safe_constant_prefix_tuple(module: Node) -> bool:
+    return module.startswith(("_", "test")) or SEPARATOR in module
+
+
+# ----------------------------------------------------------------------------- boundary evidence away from the raw test
+
+
+def safe_nested_next_character_test(module: Node, listed: list[Node], aliases: dict[str, str]) -> str:
+    for candidate in listed:
+        if module == candidate:
+            return aliases[candidate]
+        if len(module) > len(candidate) and module.startswith(candidate):
+            tail = module[len(candidate):]
+            if tail[0] == ".":
+                return aliases[candidate] + tail
+    return module
+
+
+def unsafe_nested_test_of_wrong_character(module: Node, listed: list[Node], aliases: dict[str, str]) -> str:
+    for candidate in listed:
+        if len(module) > len(candidate) and module.startswith(candidate):
+            tail = module[len(candidate):]
+            if tail[0] != "_":
+                return aliases[candidate] + tail
+    return module
+
+
+def safe_partition_of_remainder(parent: Node, module: Node) -> bool:
+    start, separator, _ = module[len(parent):].partition(".")
+    if start:
+        return False
+    if not separator and len(module) != len(parent):
+        return False
+    return module.startswith(parent)
+
+
+class _DottedName:
+    def __init__(self, full_name: Node) -> None:
+        self.full_name = full_name
+
+    def _separator_positions(self) -> list[int]:
+        return [position for position, char in enumerate(self.full_name) if char == "."]
+
+    def safe_is_below(self, other: Node) -> bool:
+        end_of_other = len(other)
+        if end_of_other not in self._separator_positions():
+            return False
+        return self.full_name[:end_of_other] == other
+
+    def unsafe_is_below(self, other: Node) -> bool:
+        end_of_other = len(other)
+        if end_of_other > len(self.full_name):
+            return False
+        return self.full_name[:end_of_other] == other
+
+
+def safe_early_exit_then_raw(module: Node, other: Node) -> bool:
+    if module != other and module[len(other):len(other) + 1] != ".":
+        return False
+    return module.startswith(other)
+
+
+def unsafe_effect_before_the_test_of_the_next_character(module: Node, other: Node, seen: list[str]) -> bool:
+    if module.startswith(other):
+        seen.append(other)
+        if module[len(other):][:1] in ("", "."):
+            return True
+    return False
+
+
+def safe_position_of_dotted_prefix_is_zero(module: Node, other: Node) -> bool:
+    try:
+        first = (module + ".").index(other + ".")
+    except ValueError:
+        return False
+    return first == 0 or f"{module}.".find(f"{other}.") == 0
+
+
+def unsafe_dotted_name_found_anywhere(module: Node, other: Node) -> bool:
+    return (module + ".").find(other + ".") != -1
+
+
+def safe_three_way_decision(module: Node, other: Node) -> str:
+    if not module.startswith(other):
+        return "external"
+    if module[len(other):][:1] in ("", "."):
+        return "internal"
+    return "sibling"
+
+
+def _helper_is_or_is_below(name: str, parent: str) -> bool:
+    return name == parent or name.startswith(parent + ".")
+
+
+def safe_relation_by_helper(module: Node, listed: list[Node]) -> str:
+    ancestor = next((c for c in listed if _helper_is_or_is_below(module, c)), None)
+    if ancestor is None:
+        return module
+    return "x" + module[len(ancestor):]
+
+
+def notsafe_relation_helper_with_swapped_arguments(module: Node, listed: list[Node]) -> str:
+    ancestor = next((c for c in listed if _helper_is_or_is_below(c, module)), None)
+    if ancestor is None:
+        return module
+    return "x" + module[len(ancestor):]
+
+
+def notsafe_evidence_about_another_string(module: Node, other: Node, third: Node) -> str:
+    if module.startswith(other) and module[len(third):][:1] in ("", "."):
+        return "x" + module[len(other):]
+    return module
+
+
+def unsafe_parent_by_wrong_separator(module: Node) -> str:
+    parent = module.rpartition("_")[0]
+    return module.removeprefix(parent)
+
+
+def safe_remainder_below_generated_ancestor(module: Node, aliases: dict[Node, str]) -> str:
+    for ancestor in _helper_ancestors_bottom_up(module):
+        if ancestor in aliases:
+            return aliases[ancestor] + module.removeprefix(ancestor)
+    return module
+
+
+def _helper_ancestors_bottom_up(module: Node):
+    remaining, separator, _ = module.rpartition(".")
+    while separator:
+        yield remaining
+        remaining, separator, _ = remaining.rpartition(".")
+
+
+def safe_components_compared_with_zip_longest(module: Node, other: Node) -> bool:
+    from itertools import zip_longest
+
+    return all(theirs is None or mine == theirs for mine, theirs in zip_longest(module.split("."), other.split(".")))
+
+
+def safe_walk_with_max(module: Node) -> list[str]:
+    parents = []
+    parent = module
+    while parent:
+        parent = parent[: max(parent.rfind("."), 0)]
+        parents.append(parent)
+    return parents
+
+
+def unsafe_raw_prefix_of_other_names(module: Node, listed: list[Node]) -> list[str]:
+    found = []
+    for candidate in listed:
+        if module != candidate and module.startswith(candidate):
+            found.append(candidate)
+    return found
+
+
+def unsafe_raw_flag_escapes(module: Node, other: Node, log: list[str]) -> bool:
+    is_prefix = module.startswith(other)
+    if is_prefix and module[len(other):][:1] in ("", "."):
+        log.append(other)
+    return is_prefix
+
+
+def safe_raw_flag_used_for_branching(module: Node, other: Node, log: list[str]) -> bool:
+    is_prefix = module.startswith(other)
+    if is_prefix and module[len(other):][:1] in ("", "."):
+        log.append(other)
+        return True
+    return False
+
+
+AFTER_ALL_NAME_CHARACTERS = "~"
+
+
+def unsafe_block_of_sorted_names(module: Node, nodes: list[Node]) -> set[str]:
+    from bisect import bisect_left
+
+    ordered = sorted(nodes)
+    return set(ordered[bisect_left(ordered, module) : bisect_left(ordered, module + AFTER_ALL_NAME_CHARACTERS)])
+
+
+def safe_block_of_sorted_names(module: Node, nodes: list[Node]) -> set[str]:
+    from bisect import bisect_left
+
+    ordered = sorted(nodes)
+    return {module} | set(ordered[bisect_left(ordered, module + ".") : bisect_left(ordered, module + "/")])
+
+
+def safe_separator_constant_everywhere(module: Node, prefix: str) -> bool:
+    root = prefix.rstrip(SEPARATOR)
+    if not module.startswith(root):
+        return False
+    if len(module) == len(root):
+        return True
+    return module[len(root)] == SEPARATOR
+
+
+def unsafe_length_compared_with_the_wrong_string(module: Node, prefix: str) -> bool:
+    root = prefix.rstrip(SEPARATOR)
+    if not module.startswith(root):
+        return False
+    if len(module) <= len(prefix):
+        return True
+    return module[len(root)] == SEPARATOR
+
+
+def safe_match_on_next_character(module: Node, listed: list[Node], aliases: dict[str, str]) -> str:
+    for candidate in listed:
+        if not module.startswith(candidate):
+            continue
+        match (remainder := module[len(candidate):])[:1]:
+            case "" | ".":
+                return aliases[candidate] + remainder
+            case _:
+                continue
+    return module
+
+
+def safe_walrus_in_the_raw_test(module: Node, prefix: str) -> bool:
+    if not module.startswith(root := prefix.rstrip(".")):
+        return False
+    return module[len(root) : len(root) + 1] in ("", ".")
+
+
+def unsafe_match_on_wrong_character(module: Node, listed: list[Node], aliases: dict[str, str]) -> str:
+    for candidate in listed:
+        if not module.startswith(candidate):
+            continue
+        match (remainder := module[len(candidate):])[:1]:
+            case "" | "_":
+                return aliases[candidate] + remainder
+            case _:
+                continue
+    return module
+
+
+def safe_alternation_of_escaped_names(modules: list[Node]) -> list[str]:
+    escaped = sorted(map(lambda m: re.escape(m), modules))
+    below_any = re.compile(r"(?:{})\.".format("|".join(escaped)))
+    return [m for m in modules if below_any.match(m) is None]
+
+
+def unsafe_alternation_of_plain_names(modules: list[Node]) -> list[str]:
+    below_any = re.compile(r"(?:{})\.".format("|".join(sorted(modules))))
+    return [m for m in modules if below_any.match(m) is None]
+
+
+def safe_prefixes_by_mapped_format(module: Node, listed: list[Node]) -> bool:
+    prefixes = tuple(map("{}.".format, listed))
+    return any(map(module.startswith, prefixes))
+
+
+def safe_same_loop_variable_twice(modules: list[Node], listed: list[Node]) -> list[str]:
+    dotted = []
+    for name in listed:
+        dotted.append(name + ".")
+    out = []
+    for name in dotted:
+        out += [m for m in modules if m.startswith(name)]
+    return out
+
+
+def safe_remainder_by_removeprefix_after_raw_test(module: Node, prefix: str) -> bool:
+    root = prefix.rstrip(".")
+    if not module.startswith(root):
+        return False
+    below = module.removeprefix(root)
+    return below == "" or below.startswith(".")
+
+
+def safe_index_error_means_equal(module: Node, other: Node) -> bool:
+    if not module.startswith(other):
+        return False
+    try:
+        return module[len(other)] == "."
+    except IndexError:
+        return True
+
+
+def unsafe_key_error_is_not_evidence(module: Node, other: Node, table: dict[str, bool]) -> bool:
+    if not module.startswith(other):
+        return False
+    try:
+        return table[module]
+    except KeyError:
+        return True
+
+
+def safe_partition_at_dotted_prefix(module: Node, other: Node) -> bool:
+    if module == other:
+        return True
+    before, separator, _ = module.partition(f"{other}.")
+    return separator != "" and before == ""
+
+
+def unsafe_partition_head_discarded(module: Node, other: Node) -> bool:
+    _, separator, rest = module.partition(f"{other}.")
+    return bool(separator) and bool(rest)
+
+
+def safe_label_after_partition_predicate(module: Node, listed: list[Node], aliases: dict[str, str]) -> str:
+    ancestor = next((c for c in listed if safe_partition_at_dotted_prefix(module, c)), None)
+    if ancestor is None:
+        return module
+    return aliases[ancestor] + module[len(ancestor):]
+
+
+def unsafe_early_stop_in_sorted_names(module: Node, listed: list[Node]) -> list[str]:
+    from bisect import bisect
+    from itertools import takewhile
+
+    ordered = sorted(listed)
+    return list(takewhile(lambda candidate: module.startswith(f"{candidate}."), reversed(ordered[: bisect(ordered, module)])))
+
+
+def safe_full_scan_of_sorted_names(module: Node, listed: list[Node]) -> list[str]:
+    from bisect import bisect
+
+    ordered = sorted(listed)
+    return [candidate for candidate in reversed(ordered[: bisect(ordered, module)]) if module.startswith(f"{candidate}.")]
+
+
+def unsafe_block_from_the_name_itself(root: Node, modules: list[Node]) -> set[str]:
+    from bisect import bisect_left
+
+    ordered = sorted(modules)
+    first = bisect_left(ordered, root)
+    behind = bisect_left(ordered, f"{root}/", lo=first)
+    return set(ordered[first:behind])
+
+
+def unsafe_block_up_to_highest_character(module: Node, modules: list[Node]) -> set[str]:
+    from bisect import bisect_left
+
+    ordered = sorted(modules)
+    return set(ordered[bisect_left(ordered, f"{module}.") : bisect_left(ordered, f"{module}{chr(0x10FFFF)}")])
+
+
+def safe_block_up_to_highest_continuation(module: Node, modules: list[Node]) -> set[str]:
+    from bisect import bisect_left
+
+    ordered = sorted(modules)
+    return set(ordered[bisect_left(ordered, f"{module}.") : bisect_left(ordered, f"{module}.{chr(0x10FFFF)}")])
+
+
+def safe_characters_compared_with_named_separator(module: Node) -> list[str]:
+    parents = []
+    current: list[str] = []
+    for char in module:
+        if char == SEPARATOR:
+            parents.append("".join(current))
+        current.append(char)
+    return parents + [module[:position] for position, char in enumerate(module) if char == SEPARATOR]
+
+
+class _AliasRow:
+    def __init__(self, module: Node, label: str) -> None:
+        self.module = module
+        self.label = label
+
+
+def safe_field_of_selected_element(module: Node, rows: list[_AliasRow]) -> str:
+    try:
+        row = next(r for r in rows if module == r.module or module.startswith(f"{r.module}."))
+    except StopIteration:
+        return module
+    return row.label + module[len(row.module):]
+
+
+class _Graph:
+    def __init__(self, level_limit: int) -> None:
+        self._level_limit = level_limit
+
+    def _flatten(self, node: Node) -> Node:
+        node_parts = node.split(".")
+        return ".".join(node_parts[: self._level_limit + 1])
+
+    def unsafe_prefix_is_a_flattened_name(self, importer: Node, importee: Node) -> bool:
+        flattened_importer = self._flatten(importer)
+        return importee.startswith(flattened_importer)
+
+    def unsafe_hierarchy_read_off_the_node_names(self, supposed_parent_node: Node, supposed_child_node: Node) -> bool:
+        return supposed_child_node != supposed_parent_node and supposed_child_node.startswith(supposed_parent_node)
+
+    def safe_prefix_is_a_flattened_name_plus_separator(self, importer: Node, importee: Node) -> bool:
+        flattened_importer = self._flatten(importer)
+        return importee == flattened_importer or importee.startswith(flattened_importer + ".")
+
+
+def _caller_of_graph_methods(graph: _Graph, worklist: list, prefix: str) -> bool:
+    node = worklist.pop()
+    return graph.unsafe_hierarchy_read_off_the_node_names(node, prefix + ".") or graph.unsafe_prefix_is_a_flattened_name(node, node)
